@@ -1488,6 +1488,9 @@ impl Scenario for C10 {
             "no thread schedules are sampled: all mutation is behind &mut self (DESIGN 1.2)".into(),
         ]
     }
+    fn extra_coverage(_tier: Tier) -> serde_json::Value {
+        serde_json::json!({ "state_abstraction": "(number of currencies, explicit derivative order or none, kind of last operation, refusals since last success capped at 3, set of quote kinds present, number of markets)" })
+    }
     fn components() -> serde_json::Value {
         serde_json::json!({
             "real": ["rateslib::fx::rates::{FXRates,FXRate,Ccy} (try_new, update, set_ad_order, rate, clone, ==)", "rateslib::dual::{Dual,Dual2,Number} arithmetic and gradient read-back", "ndarray, indexmap, internment"],
